@@ -38,11 +38,13 @@ pub struct ConnOut {
     /// the wait for the expected responses (or handler events) expired before closing
     pub waited_out: bool,
     pub bytes: usize,
+    /// the peer wrote every request completely (no write error, no write timeout)
+    pub wrote_all: bool,
 }
 
 impl ConnOut {
     fn harness(e: String) -> ConnOut {
-        ConnOut { frames: vec![], end: End::Harness(e), garbage: None, waited_out: false, bytes: 0 }
+        ConnOut { frames: vec![], end: End::Harness(e), garbage: None, waited_out: false, bytes: 0, wrote_all: false }
     }
     pub fn ended(&self) -> bool {
         matches!(self.end, End::Eos | End::Unclean(_))
@@ -80,6 +82,7 @@ pub async fn tcp_conn(addr: SocketAddr, wire: Arc<Vec<Vec<u8>>>, n_expected: usi
     let chunking = rng.below(3);
     let writer = async move {
         let mut off = 0;
+        let mut wrote_all = true;
         while off < all.len() {
             let n = match chunking {
                 0 => all.len(),
@@ -89,7 +92,10 @@ pub async fn tcp_conn(addr: SocketAddr, wire: Arc<Vec<Vec<u8>>>, n_expected: usi
             let end = (off + n).min(all.len());
             match timeout(WAIT_T, wr.write_all(&all[off..end])).await {
                 Ok(Ok(())) => {}
-                _ => break,
+                _ => {
+                    wrote_all = false;
+                    break;
+                }
             }
             off = end;
             if chunking == 1 && rng.chance(1, 6) {
@@ -100,7 +106,7 @@ pub async fn tcp_conn(addr: SocketAddr, wire: Arc<Vec<Vec<u8>>>, n_expected: usi
             let _ = rx.await;
         }
         let _ = wr.shutdown().await; // shutdown(Write): the server sees EOF after the last request
-        wr
+        (wr, wrote_all)
     };
     let reader = async move {
         let mut buf: Vec<u8> = Vec::new();
@@ -141,14 +147,14 @@ pub async fn tcp_conn(addr: SocketAddr, wire: Arc<Vec<Vec<u8>>>, n_expected: usi
         drop(tx);
         (buf, end, waited_out)
     };
-    let (_wr, (buf, end, waited_out)) = tokio::join!(writer, reader);
+    let ((_wr, wrote_all), (buf, end, waited_out)) = tokio::join!(writer, reader);
     let (frames, tail) = oracle::parse_stream(&buf);
     let garbage = match tail {
         StreamTail::Clean => None,
         StreamTail::Partial { at, have, need, .. } => Some(format!("stream ends inside a frame at offset {at}: {have} of {need:?} bytes")),
         StreamTail::Corrupt { at, header } => Some(format!("bytes at offset {at} are not a consistent REPE header: {header:?}")),
     };
-    ConnOut { frames, end, garbage, waited_out, bytes: buf.len() }
+    ConnOut { frames, end, garbage, waited_out, bytes: buf.len(), wrote_all }
 }
 
 async fn wait_events(sid: u8, keys: &[(u8, u64)]) -> bool {
@@ -176,16 +182,22 @@ pub async fn ws_conn(addr: SocketAddr, wire: Arc<Vec<Vec<u8>>>, n_expected: usiz
     let (mut sink, mut stream) = ws.split();
     let (tx, rx) = tokio::sync::oneshot::channel::<()>();
     let writer = async move {
+        let mut wrote_all = true;
         for f in wire.iter() {
             match timeout(WAIT_T, sink.feed(WsMsg::Binary(f.clone()))).await {
                 Ok(Ok(())) => {}
-                _ => break,
+                _ => {
+                    wrote_all = false;
+                    break;
+                }
             }
         }
-        let _ = timeout(WAIT_T, sink.flush()).await;
+        if !matches!(timeout(WAIT_T, sink.flush()).await, Ok(Ok(()))) {
+            wrote_all = false;
+        }
         let _ = rx.await;
         let _ = timeout(EOS_T, sink.send(WsMsg::Close(None))).await;
-        sink
+        (sink, wrote_all)
     };
     let reader = async move {
         let mut frames: Vec<Frame> = vec![];
@@ -253,8 +265,8 @@ pub async fn ws_conn(addr: SocketAddr, wire: Arc<Vec<Vec<u8>>>, n_expected: usiz
         drop(tx);
         (frames, end, garbage, waited_out, bytes)
     };
-    let (_sink, (frames, end, garbage, waited_out, bytes)) = tokio::join!(writer, reader);
-    ConnOut { frames, end, garbage, waited_out, bytes }
+    let ((_sink, wrote_all), (frames, end, garbage, waited_out, bytes)) = tokio::join!(writer, reader);
+    ConnOut { frames, end, garbage, waited_out, bytes, wrote_all }
 }
 
 // ------------------------------------------------------------------ peers that build up back-pressure (c03_bp.rs)
@@ -346,7 +358,7 @@ pub async fn ws_conn_bp(addr: SocketAddr, wire: Arc<Vec<Vec<u8>>>, n_expected: u
         }
         let _ = rx.await;
         let _ = timeout(EOS_T, sink.send(WsMsg::Close(None))).await;
-        (sink, stalled)
+        (sink, stalled, ok)
     };
     let reader = async move {
         let mut obs = BpObs::default();
@@ -427,9 +439,9 @@ pub async fn ws_conn_bp(addr: SocketAddr, wire: Arc<Vec<Vec<u8>>>, n_expected: u
         drop(tx);
         (frames, end, garbage, waited_out, bytes, obs)
     };
-    let ((_sink, write_stalled), (frames, end, garbage, waited_out, bytes, obs)) = tokio::join!(writer, reader);
+    let ((_sink, write_stalled, wrote_all), (frames, end, garbage, waited_out, bytes, obs)) = tokio::join!(writer, reader);
     if write_stalled {
         return (ConnOut::harness(format!("the peer could not write its pipeline within {WAIT_T:?} although it was reading ({} frames received)", frames.len())), obs);
     }
-    (ConnOut { frames, end, garbage, waited_out, bytes }, obs)
+    (ConnOut { frames, end, garbage, waited_out, bytes, wrote_all }, obs)
 }
